@@ -135,6 +135,14 @@ Theorem C18_pass_invariants : forall p, exists cs,
 Proof. exact c18_pre4_structure. Qed.
 Print Assumptions C18_pass_invariants.
 
+(* one value in both roles: the relative path from a path to itself is the empty path (for every string);
+   every string has each of its own prefixes / suffixes (the `const char*` may point into the container itself) *)
+Theorem C18_self_application : forall p k,
+  c18_relativePath p p = C18_Ok []
+  /\ c18_hasPrefix p (firstn k p) = true /\ c18_hasSuffix p (skipn k p) = true.
+Proof. exact (fun p k => conj (c18_relative_self p) (c18_self_prefix_suffix p k)). Qed.
+Print Assumptions C18_self_application.
+
 (* prefix / suffix tests are the plain definitions *)
 Theorem C18_prefix_suffix : forall s x,
   (c18_hasPrefix s x = true <-> exists t, s = x ++ t) /\ (c18_hasSuffix s x = true <-> exists t, s = t ++ x).
@@ -222,4 +230,8 @@ Proof. vm_compute; repeat split; reflexivity. Qed.
 Example C18_doc_tables :   (* every row of the example tables of path.hh (processPath, prettyPath, concatPaths) and of pathtest.cc (relativePath) *)
   c18_doc_tables_hold = true
   /\ (length c18_doc_process_table, length c18_doc_pretty_table, length c18_doc_concat_table, length c18_doc_relative_table) = (16, 32, 12, 14).
+Proof. vm_compute; split; reflexivity. Qed.
+Example C18_example_self :
+  c18_relativePath ["/";".";".";"/";"a";"/";"/";"b"] ["/";".";".";"/";"a";"/";"/";"b"] = C18_Ok []
+  /\ c18_concatPaths ["a";"/"] ["a";"/"] = ["a";"/";"a";"/"].
 Proof. vm_compute; split; reflexivity. Qed.
